@@ -1,5 +1,6 @@
 """C06 Conditional blocks render exactly the one branch selected by truthiness."""
 import itertools
+import zlib
 from ..astgen import AG, gen_doc
 from ..gen import enc, session, F
 from ..rng import Rng
@@ -53,7 +54,7 @@ def generate(rng, n, tier="quick"):
                 pass
             for vals in itertools.product(vals_pool, repeat=L):
                 # thin the big products deterministically
-                if L >= 3 and (hash((kinds, tuple(v[0] for v in vals))) % (7 if L == 3 else 97)) != 0:
+                if L >= 3 and (zlib.crc32(("|".join(kinds) + "#" + "|".join(v[0] for v in vals)).encode()) % (7 if L == 3 else 97)) != 0:
                     continue
                 for has_else in (False, True):
                     incz = False
